@@ -181,8 +181,9 @@ def make_sites(rng, n, labelling):
     elif labelling == "species3":
         # (species, x, y) coordinates
         na = n // 2
-        coo = [(i, j) for i in range(2) for j in range(3)]
-        sites = [("a",) + coo[i] for i in range(na)] + [("b",) + coo[i] for i in range(n - na)]
+        coo = [(i, j) for i in range(3) for j in range(3)]
+        sites = [("a",) + coo[int(i)] for i in rng.choice(9, size=na, replace=False)] + \
+                [("b",) + coo[int(i)] for i in rng.choice(9, size=n - na, replace=False)]
     else:
         raise ValueError(labelling)
     perm = rng.permutation(n)
@@ -321,7 +322,7 @@ def builder_representations(cx):
     from quimb.operator import HilbertSpace, SparseOperatorBuilder
 
     rng = cx.rng
-    ncases = 56 if cx.quick else 480
+    ncases = 44 if cx.quick else 700
     nmax = 6 if cx.quick else 7
     for i in range(ncases * cx.nchunks):
         if not cx.mine():
@@ -1133,7 +1134,7 @@ def symmetry_sectors(cx):
     from quimb.operator import HilbertSpace, SparseOperatorBuilder
 
     rng = cx.rng
-    ncases = 40 if cx.quick else 320
+    ncases = 40 if cx.quick else 480
     nmax = 6 if cx.quick else 7
     for i in range(ncases * cx.nchunks):
         if not cx.mine():
@@ -1233,7 +1234,8 @@ def symmetry_sectors(cx):
                 idx = _sector_index(HilbertSpace, supply, order_arg, regs, dict(species_kw, **skw))
                 out = [j for j in range(ref.shape[0]) if j not in set(idx)]
                 if out and idx and np.abs(ref[np.ix_(out, idx)]).max() > 1e-12:
-                    raise AssertionError("driver bug: generated operator leaves the sector")
+                    raise AssertionError("the basis states enumerated by rank_to_config do not span an invariant subspace of the "
+                                         "symmetric reference operator (ranking does not enumerate the sector)")
                 return ref[np.ix_(idx, idx)]
 
             def t_mat(mkH=mkH, hs_kw=hs_kw, call_kw=call_kw, sector_ref=sector_ref, st=st):
@@ -1407,7 +1409,7 @@ def model_builders(cx):
     from quimb.operator import HilbertSpace
 
     rng = cx.rng
-    ncases = 30 if cx.quick else 240
+    ncases = 30 if cx.quick else 360
     for i in range(ncases * cx.nchunks):
         if not cx.mine():
             continue
